@@ -404,6 +404,9 @@ class LibGen:
                 pf = ["output"]
             elif k < 0.46:
                 pf = ["discrete"]
+            elif k < 0.52:
+                # variability and causality together (the variability keyword comes first)
+                pf = [r.choice(["discrete", "parameter"]), r.choice(["input", "output"])]
         c = {"name": name, "type": t, "prefixes": pf, "dims": [], "mods": [], "value": None}
         bt = self.base_of.get(t, t) if hasattr(self, "base_of") else t
         base_real = bt not in ("Integer", "Boolean")
